@@ -304,7 +304,10 @@ func wireItems(b []byte) (items []string, bad error) {
 
 var peerOps = map[string]bool{"m": true, "y": true, "h": true, "s": true, "e": true, "p": true, "g": true, "d": true}
 
-type ctxT struct{ r *common.Run }
+type ctxT struct {
+	r      *common.Run
+	stalls int // reads that blocked: after a few, further reads are not waited for
+}
 
 // hist executes one history on a fresh session.
 func (c *ctxT) hist(serve bool, ops []string, class string) {
@@ -366,6 +369,10 @@ func (c *ctxT) hist(serve bool, ops []string, class string) {
 				res = append(res, "na")
 				break
 			}
+			if c.stalls >= 5 {
+				res = append(res, "STALL")
+				break
+			}
 			var e error
 			ok := common.WithTimeout(3*time.Second, func() {
 				rc := t.s.TokenReader()
@@ -374,6 +381,7 @@ func (c *ctxT) hist(serve bool, ops []string, class string) {
 			})
 			switch {
 			case !ok:
+				c.stalls++
 				res = append(res, "STALL")
 				fail("read-after", "TokenReader", "a read after Serve returned blocks instead of failing")
 			case errors.Is(e, xmpp.ErrInputStreamClosed):
